@@ -49,7 +49,7 @@ type c04Cfg struct {
 	outside                [][2]int // token, path
 }
 type c04Ev struct {
-	op  byte // S D U X R B T E
+	op  byte // S D U X R B T E, and virtual time: A (arg seconds pass, nothing is swept) W (CheckExpirations now at side arg)
 	arg int
 }
 
@@ -614,6 +614,21 @@ func (w *c04World) apply(e c04Ev) *c04Obs {
 		}
 		s.bw.CheckExpirations(time.Now().Add(2 * c04Expiration))
 		return quiet()
+	case 'A':
+		// virtual time: instead of waiting, the deadlines of everything both endpoints hold move into the past
+		d := time.Duration(e.arg) * time.Second
+		if d > 0 {
+			w.a.bw.VerifShiftDeadlines(d)
+			w.b.bw.VerifShiftDeadlines(d)
+		}
+		return quiet()
+	case 'W':
+		s := w.a
+		if e.arg == 1 {
+			s = w.b
+		}
+		s.bw.CheckExpirations(time.Now())
+		return quiet()
 	}
 	return quiet()
 }
@@ -631,21 +646,25 @@ func (w *c04World) release() {
 func (e c04Ev) coq() string {
 	switch e.op {
 	case 'S':
-		return fmt.Sprintf("Start %d", e.arg)
+		return fmt.Sprintf("Ev (Start %d)", e.arg)
 	case 'D':
-		return fmt.Sprintf("Deliver %d", e.arg)
+		return fmt.Sprintf("Ev (Deliver %d)", e.arg)
 	case 'U':
-		return fmt.Sprintf("Dup %d", e.arg)
+		return fmt.Sprintf("Ev (Dup %d)", e.arg)
 	case 'X':
-		return fmt.Sprintf("Drop %d", e.arg)
+		return fmt.Sprintf("Ev (Drop %d)", e.arg)
 	case 'R':
-		return fmt.Sprintf("Replay %d", e.arg)
+		return fmt.Sprintf("Ev (Replay %d)", e.arg)
 	case 'B':
-		return fmt.Sprintf("Bump %d", e.arg)
+		return fmt.Sprintf("Ev (Bump %d)", e.arg)
 	case 'T':
-		return fmt.Sprintf("Timeout %d", e.arg)
+		return fmt.Sprintf("Ev (Timeout %d)", e.arg)
+	case 'A':
+		return fmt.Sprintf("Age %d", e.arg)
+	case 'W':
+		return fmt.Sprintf("Sweep %s", coqBool(e.arg == 1))
 	}
-	return fmt.Sprintf("Expire %s", coqBool(e.arg == 1))
+	return fmt.Sprintf("Ev (Expire %s)", coqBool(e.arg == 1))
 }
 
 func (c *c04Cfg) coq() string {
@@ -875,6 +894,16 @@ func c04Scripted(cfg *c04Cfg, faults []c04Fault) c04Policy {
 // c04Random: random interleaving of starts, deliveries (any in-flight index) and faults
 func c04Random(cfg *c04Cfg, rng *Rng, faultPct int, canBump bool) c04Policy {
 	started, n, epi := 0, 0, 0
+	// time passes only in scenarios without B-initiated Observe notifications: when the state of the private
+	// re-fetch of a block-wise notification expires half-way, a late block is still paired with the expired
+	// request (getSentRequest does not look at deadlines) and the re-assembled notification is handed over
+	// under the private token (observation O5 in notes/C04.md, replayable history there)
+	allowTime := true
+	for _, x := range cfg.exch {
+		if x.kind == 2 {
+			allowTime = false
+		}
+	}
 	var epilogue []c04Ev
 	return func(w *c04World, _ int) (c04Ev, bool) {
 		for n < 90 {
@@ -899,7 +928,16 @@ func c04Random(cfg *c04Cfg, rng *Rng, faultPct int, canBump bool) c04Policy {
 			if !rng.Chance(faultPct) {
 				return c04Ev{'D', j}, true
 			}
-			switch rng.Intn(6) {
+			switch rng.Intn(7) {
+			case 6:
+				// virtual time: age (short of / beyond the deadline) or sweep now
+				if !allowTime {
+					return c04Ev{'D', j}, true
+				}
+				if rng.Chance(60) {
+					return c04Ev{'A', c04AgeSteps[rng.Intn(len(c04AgeSteps))]}, true
+				}
+				return c04Ev{'W', rng.Intn(2)}, true
 			case 0:
 				return c04Ev{'U', j}, true
 			case 1:
@@ -1064,6 +1102,15 @@ func runC04(a runArgs) error {
 				}
 			}
 		}
+	}
+	// (0) canonical histories of the findings (always run, both tiers)
+	for _, d := range c04Canonical {
+		cfg, evs, err := c04ParseDesc(d)
+		if err != nil {
+			return err
+		}
+		r := c04Run(cfg, c04Explicit(evs))
+		c04Emit(e, cfg, r, "canonical")
 	}
 	// (1) fault-free grid: every flavour x size around the block boundaries x SZX pair
 	for _, p := range pairs {
@@ -1255,5 +1302,245 @@ func runC04(a runArgs) error {
 		r := c04Run(cfg, c04Random(cfg, g, fp, canBump))
 		c04Emit(e, cfg, r, "random", fmt.Sprintf("tokens-%d", nx), fmt.Sprintf("fault-pct-%d", fp))
 	}
+	c04RestartFamily(e, thorough)
+	c04ExpiryFamily(e, thorough)
 	return e.Flush(a.out)
+}
+
+// c04Canonical: the histories of the findings recorded in notes/C04.md.
+var c04Canonical = []string{
+	// F15: complete transfer, the last block replayed
+	"c04 0 1152 0 1152 | x0,2,7,0,5,33,-1 | r11,5,0,42 | | S0 D0 D0 D0 D0 D0 D0 R4 D0 T0 E0 E1",
+	// one-way POST of exactly one block
+	"c04 0 1152 0 1152 | x1,2,10,0,9,16,-1 | r19,3,0,42 | | S0 D0 D0 E0 E1",
+	// finding 3, witness 1: the token of a finished POST with a block-wise response is used by a later Do,
+	// an old block (NUM > 0) of the first response arrives: the reassembly has to start again at block 0
+	"c04 0 1152 0 1152 | x0,2,7,0,5,5,-1 | r11,40,0,42 | | S0 D0 D0 D0 D0 D0 D0 S0 R3 D1",
+	// finding 3, witness 2: one Do; the resource changes, the first request is duplicated
+	"c04 0 1152 0 1152 | x0,2,7,0,5,5,-1 | r11,20,1,42 | | S0 D0 D0 D0 B0 R0 R2 D2 D2",
+}
+
+// c04RestartFamily: histories in which the reassembly of a block-wise RESPONSE has to start again at
+// block 0: (a) the exchange is started again with the token already used and blocks of the earlier
+// response are replayed; (b) the resource (with ETag) changes while its representation is fetched and
+// earlier messages (the first request, blocks) are replayed. Bases: Do POST / PUT / GET whose response
+// is block-wise, request small or block-wise.
+func c04RestartFamily(e *Emitter, thorough bool) {
+	type base struct {
+		code, reqLen, resLen int
+		etag                 bool
+	}
+	bases := []base{{2, 5, 40, false}, {3, 5, 20, true}, {1, 0, 40, true}}
+	if thorough {
+		bases = append(bases, base{2, 20, 40, true}, base{3, 5, 40, false}, base{2, 5, 33, true}, base{1, 0, 20, false})
+	}
+	drain := func(inner []c04Ev, lifo bool) c04Policy {
+		i, n, epi := 0, 0, 0
+		epilogue := []c04Ev{{'T', 0}, {'E', 0}, {'E', 1}}
+		return func(w *c04World, _ int) (c04Ev, bool) {
+			if i < len(inner) {
+				i++
+				return inner[i-1], true
+			}
+			if len(w.flight) > 0 && n < 40 {
+				n++
+				if lifo {
+					return c04Ev{'D', len(w.flight) - 1}, true
+				}
+				return c04Ev{'D', 0}, true
+			}
+			if epi < len(epilogue) {
+				epi++
+				return epilogue[epi-1], true
+			}
+			return c04Ev{}, false
+		}
+	}
+	for _, b := range bases {
+		cfg := &c04Cfg{szxA: 0, maxA: 1152, szxB: 0, maxB: 1152}
+		cfg.exch = []c04Exch{{0, b.code, 7, 0, 5, b.reqLen, -1}}
+		cfg.res = []c04Res{{11, b.resLen, b.etag, 42}}
+		name := fmt.Sprintf("restart-code%d-req%d-res%d", b.code, b.reqLen, b.resLen)
+		// the fault-free run: its length and its wire history
+		ff := c04Run(cfg, c04Scripted(cfg, nil))
+		var run []c04Ev // S0 D0 ... D0 (without the epilogue)
+		nh := 0
+		for i, ev := range ff.evs {
+			if ev.op == 'S' || ev.op == 'D' {
+				run = append(run, ev)
+			}
+			if ff.obs[i].wire != nil {
+				nh++
+			}
+		}
+		// (a) complete, start again with the same token, replay one or two old messages, let everything arrive
+		for h1 := 0; h1 < nh; h1++ {
+			evs := append(append([]c04Ev(nil), run...), c04Ev{'S', 0}, c04Ev{'R', h1})
+			for _, lifo := range []bool{false, true} {
+				r := c04Run(cfg, drain(evs, lifo))
+				c04Emit(e, cfg, r, "restart", name, "token-reused")
+			}
+			for h2 := 0; h2 < nh; h2++ {
+				if !thorough && h2 != h1+1 && h2 != 0 {
+					continue
+				}
+				evs2 := append(append([]c04Ev(nil), evs...), c04Ev{'R', h2})
+				for _, lifo := range []bool{false, true} {
+					r := c04Run(cfg, drain(evs2, lifo))
+					c04Emit(e, cfg, r, "restart", name, "token-reused")
+				}
+			}
+		}
+		// (b) after p steps the resource changes; one or two earlier messages are replayed
+		if b.etag {
+			for p := 1; p <= len(run); p++ {
+				for h1 := 0; h1 < nh; h1++ {
+					evs := append(append([]c04Ev(nil), run[:p]...), c04Ev{'B', 0}, c04Ev{'R', h1})
+					for _, lifo := range []bool{false, true} {
+						r := c04Run(cfg, drain(evs, lifo))
+						c04Emit(e, cfg, r, "restart", name, "resource-changed")
+					}
+					for h2 := 0; h2 < nh; h2++ {
+						if !thorough && h2 > 2 {
+							continue
+						}
+						evs2 := append(append([]c04Ev(nil), evs...), c04Ev{'R', h2})
+						for _, lifo := range []bool{false, true} {
+							r := c04Run(cfg, drain(evs2, lifo))
+							c04Emit(e, cfg, r, "restart", name, "resource-changed")
+						}
+					}
+				}
+			}
+		}
+	}
+}
+
+// c04AgeSteps: amounts of virtual time (seconds; the expiration of both endpoints is 3600 s). No sum of
+// them is a multiple of 3600, so no deadline is ever met exactly (real time moves by milliseconds meanwhile).
+var c04AgeSteps = []int{1700, 3700}
+
+// c04ExpiryFamily: an exchange dies after at least one block (everything in flight is lost, the Do gives
+// up), time passes (short of / beyond the deadline of what the endpoints still hold), the endpoints are
+// swept or not, the resource gets new content of at least the same length, and a new exchange with the
+// SAME token runs to completion. The stale reassembly / sending state of the dead exchange is still in
+// the caches unless swept; the new exchange must deliver exactly its own body.
+func c04ExpiryFamily(e *Emitter, thorough bool) {
+	type base struct {
+		name                 string
+		code, reqLen, resLen int
+		etag                 bool
+		szxA, szxB           int
+	}
+	bases := []base{
+		{"download", 1, 0, 75, false, 0, 0},
+		{"download-etag", 1, 0, 40, true, 0, 0},
+		{"upload", 3, 75, 5, false, 0, 0},
+		{"post-big-response", 2, 5, 40, false, 0, 0},
+	}
+	if thorough {
+		bases = append(bases, base{"download-szx", 1, 0, 100, false, 1, 0}, base{"upload-szx", 2, 100, 5, false, 0, 1},
+			base{"both", 3, 40, 40, false, 0, 0}, base{"both-etag", 3, 40, 40, true, 0, 0})
+	}
+	sweeps := [][]c04Ev{nil, {{'W', 0}}, {{'W', 1}}, {{'W', 0}, {'W', 1}}}
+	ages := [][]c04Ev{{{'A', 3700}}, {{'A', 1700}}, {{'A', 1700}, {'A', 1700}, {'A', 1700}}}
+	if thorough {
+		sweeps = append(sweeps, []c04Ev{{'E', 0}}, []c04Ev{{'E', 1}})
+		ages = append(ages, []c04Ev{{'A', 1700}, {'A', 1700}}, nil)
+	}
+	for _, b := range bases {
+		cfg := &c04Cfg{szxA: b.szxA, maxA: 1152, szxB: b.szxB, maxB: 1152}
+		cfg.exch = []c04Exch{{0, b.code, 7, 0, 5, b.reqLen, -1}}
+		cfg.res = []c04Res{{11, b.resLen, b.etag, 42}}
+		ff := c04Run(cfg, c04Scripted(cfg, nil))
+		nd := 0
+		for _, ev := range ff.evs {
+			if ev.op == 'D' {
+				nd++
+			}
+		}
+		for p := 1; p < nd; p++ {
+			for ai, age := range ages {
+				for si, sw := range sweeps {
+					for _, variant := range []int{0, 1, 2} {
+						bump, late := variant != 1, variant == 2
+						if !bump && (!thorough || b.code != 1) {
+							continue
+						}
+						if late && (len(sw) != 1 || (!thorough && ai != 0)) {
+							continue
+						}
+						total := 0
+						for _, a := range age {
+							total += a.arg
+						}
+						if bump && !b.etag && total <= 3600 {
+							// Short of the deadline the reassembly state of the dead exchange is still valid and a
+							// new exchange with the same token continues it, like a late block within one exchange:
+							// without ETag the versions of a resource that changes meanwhile cannot be told apart
+							// (RFC 7959; observation O4 in notes/C04.md). The content changes only with an ETag here.
+							continue
+						}
+						// the first exchange: p messages arrive, the rest is lost, the Do gives up
+						pre := []c04Ev{{'S', 0}}
+						for i := 0; i < p; i++ {
+							pre = append(pre, c04Ev{'D', 0})
+						}
+						mid := append([]c04Ev{{'T', 0}}, age...)
+						if !late {
+							mid = append(mid, sw...)
+						}
+						if bump {
+							mid = append(mid, c04Ev{'B', 0})
+						}
+						mid = append(mid, c04Ev{'S', 0})
+						if late {
+							// the sweep runs when the new exchange is already under way (its onExpire callbacks
+							// meet the state of the new exchange)
+							mid = append(mid, sw...)
+						}
+						stage, i, n, epi := 0, 0, 0, 0
+						epilogue := []c04Ev{{'T', 0}, {'E', 0}, {'E', 1}}
+						pol := func(w *c04World, _ int) (c04Ev, bool) {
+							if stage == 0 {
+								if i < len(pre) {
+									i++
+									return pre[i-1], true
+								}
+								stage, i = 1, 0
+							}
+							if stage == 1 {
+								if len(w.flight) > 0 {
+									return c04Ev{'X', 0}, true
+								}
+								stage = 2
+							}
+							if stage == 2 {
+								if i < len(mid) {
+									i++
+									return mid[i-1], true
+								}
+								stage = 3
+							}
+							if len(w.flight) > 0 && n < 60 {
+								n++
+								return c04Ev{'D', 0}, true
+							}
+							if epi < len(epilogue) {
+								epi++
+								return epilogue[epi-1], true
+							}
+							return c04Ev{}, false
+						}
+						r := c04Run(cfg, pol)
+						lateTag := "sweep-before-restart"
+						if late {
+							lateTag = "sweep-after-restart"
+						}
+						c04Emit(e, cfg, r, "expiry", "expiry-"+b.name, fmt.Sprintf("age-%d", ai), fmt.Sprintf("sweep-%d", si), lateTag)
+					}
+				}
+			}
+		}
+	}
 }
